@@ -9,8 +9,8 @@ import (
 )
 
 var rules = map[string]string{
-	"C11": "Each case is one simulated run drawn from mix(VERIF_SEED,i), of three kinds. A: 2-8 client tasks, each 1-3 pipelines parse -> 0-6 operations (print, print inside PHP state, dump x4 option sets, traverse with a recording visitor, traverse with visitor.Null, resolve names); B: the same pipelines pushed through a model of the CLI topology (producer, K parser workers, one consumer, bounded queues) so that trees cross tasks; C: the real cmd/php-parser program (its main, worker goroutines, channels, WaitGroup, flags) over 1-12 real files in a scratch directory. Inputs are composed from the corpus (mixed, all from one feature class, a family of variants of one file, a crowd of 12-40 tiny malformed files under one grammar, or a storm of faulted operations on deeply nested files), with versions 5.0-7.4 or nil, callback on/off, shared or private version pointer, block-size knob, forced-GC steps; in 30% of A/B runs a quarter of the operations are cut short by a writer fault or visitor abort; in 30% of A/B runs some callers keep one statement and drop the root; in 15% of C runs an I/O error (read error, write error, torn write) strikes one of the program's files and the relaxed oracle of DESIGN.md section 13 applies. A seeded scheduler (run-to-completion / random preemption / PCT / site-biased) decides every task switch at instrumented yield points. Every run is followed by the same work alone in the same process and, if nothing was wrong, by all its pipelines in reverse order in one fresh process and by up to 6 of its pipelines (files) each alone in a fresh process. Non-trivial: >=2 pipelines (files) and >=1 preemptive switch to another task inside the code under test. Distinct: distinct (scenario hash, event-log hash) pairs among the non-trivial runs.",
-	"C13": "Each case is one simulated run: one corpus-composed input, a reference table (every operation kind - print, print inside PHP state, dump x4 option sets, traverse with a recording visitor, traverse with visitor.Null, resolve - on its own freshly parsed tree, computed twice) and a drawn history of 1-24 such operations on ONE tree (in a quarter of the runs some of them applied to a single statement of the tree, with their own reference entries); odd seeds additionally inject writer faults (error, sticky error, short write, panic at a drawn Write call), visitor aborts and forced GC, a fifth of them as scans that cut one operation kind short at consecutive positions. After every operation: output equals the table (a faulted operation: accepted bytes are a prefix), fingerprint of the tree's exported fields and of the source buffer unchanged. One table entry per run is recomputed alone in a fresh process. Non-trivial: >=2 operations executed and at least one operation follows an operation of a different kind. Distinct: distinct (scenario hash, event-log hash) pairs among the non-trivial runs.",
+	"C11": "Each case is one simulated run drawn from mix(VERIF_SEED,i), of three kinds. A: 2-8 client tasks, each 1-3 pipelines parse -> 0-6 operations (print, print inside PHP state, dump x4 option sets, traverse with a recording visitor, traverse with visitor.Null, resolve names); B: the same pipelines pushed through a model of the CLI topology (producer, K parser workers, one consumer, bounded queues) so that trees cross tasks; C: the real cmd/php-parser program (its main, worker goroutines, channels, WaitGroup, flags) over 1-12 real files in a scratch directory. Inputs are composed from the corpus (mixed, all from one feature class, a family of variants of one file, a crowd of 12-40 tiny malformed files under one grammar, or a storm of faulted operations on deeply nested files), with versions 5.0-7.4 or nil, callback on/off, shared or private version pointer, block-size knob, forced-GC steps; in 30% of A/B runs a quarter of the operations are cut short by a writer fault or visitor abort; in 30% of A/B runs some callers keep one statement and drop the root; in 20% of A/B runs some operations are applied to a statement or to an inner vertex of the tree (by pre-order number); in 15% of C runs an I/O error (read error, write error, torn write) strikes one of the program's files and the relaxed oracle of DESIGN.md section 13 applies. A seeded scheduler (run-to-completion / random preemption / PCT / site-biased) decides every task switch at instrumented yield points. Every run is followed by the same work alone in the same process and, if nothing was wrong, by all its pipelines in reverse order in one fresh process and by up to 6 of its pipelines (files) each alone in a fresh process. Non-trivial: >=2 pipelines (files) and >=1 preemptive switch to another task inside the code under test. Distinct: distinct (scenario hash, event-log hash) pairs among the non-trivial runs.",
+	"C13": "Each case is one simulated run: one corpus-composed input, a reference table (every operation kind - print, print inside PHP state, dump x4 option sets, traverse with a recording visitor, traverse with visitor.Null, resolve - on its own freshly parsed tree, computed twice) and a drawn history of 1-24 such operations on ONE tree (in a third of the runs some of them applied to a single statement or to an inner vertex of the tree - an expression, a name, a class member, chosen by pre-order number - with their own reference entries); odd seeds additionally inject writer faults (error, sticky error, short write, panic at a drawn Write call), visitor aborts and forced GC, a fifth of them as scans that cut one operation kind short at consecutive positions. After every operation: output equals the table (a faulted operation: accepted bytes are a prefix), fingerprint of the tree's exported fields and of the source buffer unchanged. One table entry per run is recomputed alone in a fresh process. Non-trivial: >=2 operations executed and at least one operation follows an operation of a different kind. Distinct: distinct (scenario hash, event-log hash) pairs among the non-trivial runs.",
 	"C18": "Each case is one simulated run, of two kinds. pools: 1-4 tasks each owning 1-3 token/position pools with a drawn block size (1-64 dense, and 100..4096), executing drawn get/write/verify/gc/renew operations (renew: the pool is dropped, its objects kept, a new pool of the same size takes its place; 5% long runs: one task, block sizes at 15/16/17-bit limits with a request count beyond the block, or ~140,000 requests at a small size) against a reference model of every object ever returned (non-nil, never returned twice by any pool of the run, a stamp written through one object never changes another), tasks interleaved at yield points inside Pool.Get and NewPool; the race detector blinded to hand-overs reports memory shared between two tasks' pools. parse: 1-3 tasks parse corpus inputs with DefaultBlockSize set to a drawn value (1..1025), compared with the same parse at the compiled-in size. Non-trivial: at least one block boundary was crossed. Distinct: distinct (scenario hash, event-log hash) pairs among the non-trivial runs.",
 }
 
@@ -65,14 +65,14 @@ func writeEvidenceFile(b *build, a *agg, prop, tier string, seed uint64, violati
 		"nontrivial_runs":     a.nontrivial,
 		"seeds":               map[string]interface{}{"base": seed, "count": a.runs, "derivation": "run i uses splitmix(VERIF_SEED ^ (i+1)*0xd1342543de82ef95); scenario, schedule and fault streams are derived from it"},
 		"runs_per_hour":       int(float64(a.runs) / a.wall.Hours()),
-		"simulated_time": map[string]interface{}{"unit": "yield points executed (the code under test reads no clock)", "total_steps_concurrent_phase": a.steps,
+		"simulated_time": map[string]interface{}{"unit": "yield points executed; " + clockState(b), "total_steps_concurrent_phase": a.steps,
 			"total_steps_reference_phases": a.refSteps, "max_steps_one_run": a.maxSt},
 		"preemptions":                      a.preempt,
 		"task_switches":                    a.switches,
 		"forced_yields_on_contended_locks": a.forced,
 		"distinct_interleavings":           map[string]interface{}{"measure": "distinct hashes of the full decision log (step, site, from, to, kind)", "count": len(a.interleavings)},
 		"faults_fired":                     fired,
-		"faults_not_applicable":            "message loss/duplication/reordering, partitions, clock skew and jumps, allocation failure: the code under test has no network, clock, reader or recoverable allocation seam (DESIGN.md section 1). Disk faults exist only for cmd/php-parser (C11 scenario C: read error, write error, torn write per file, DESIGN.md section 13); the library does no I/O besides the io.Writer it is handed, whose faults are injected.",
+		"faults_not_applicable":            "message loss/duplication/reordering, partitions, allocation failure: the code under test has no network, reader or recoverable allocation seam (DESIGN.md section 1). Clock speed and clock jumps are injected only when the tree under test waits on the clock (" + clockState(b) + "). Disk faults exist only for cmd/php-parser (C11 scenario C: read error, write error, torn write per file, DESIGN.md section 13); the library does no I/O besides the io.Writer it is handed, whose faults are injected.",
 		"reach_probes":                     a.probes,
 		"schedulers_used":                  a.modes,
 		"scenario_kinds":                   a.kinds,
@@ -127,7 +127,7 @@ func writeEvidenceFile(b *build, a *agg, prop, tier string, seed uint64, violati
 func stubs(prop string) []string {
 	switch prop {
 	case "C11":
-		return []string{"cmd/php-parser: scenario C runs its real main function, worker goroutines, channels and WaitGroup; only process-global facilities are redirected (flag -> per-invocation FlagSet, os.Exit -> halt of the simulated program, os.Stdout/Stderr, fmt.Print*, log.* -> captured streams, runtime.GOMAXPROCS -> worker count of the scenario); scenario B additionally models the same topology in the harness", "Go scheduler: replaced by the run-token scheduler for simulated tasks", "file system: real files in a per-run scratch directory, no faults injected (no property gives file-system faults an oracle)", "github.com/pkg/profile: linked, never started (profiling flags are never drawn)"}
+		return []string{"cmd/php-parser: scenario C runs its real main function, worker goroutines, channels and WaitGroup; only process-global facilities are redirected (flag -> per-invocation FlagSet, os.Exit -> halt of the simulated program, os.Stdout/Stderr, fmt.Print*, log.* -> captured streams, runtime.GOMAXPROCS -> worker count of the scenario); scenario B additionally models the same topology in the harness", "Go scheduler: replaced by the run-token scheduler for simulated tasks", "file system: real files in a per-run scratch directory; ReadFile/WriteFile of the program go through a shim that injects per-file read errors, write errors and torn writes (DESIGN.md section 13)", "clock: package time of files that touch the clock is the simulated clock (DESIGN.md section 14)", "github.com/pkg/profile: linked, never started (profiling flags are never drawn)"}
 	case "C13":
 		return []string{"io.Writer: simulated, fault-injecting", "Go scheduler: one simulated task"}
 	}
@@ -139,6 +139,18 @@ func cliState(b *build) string {
 		return "skipped(" + b.cliSkipped + ")"
 	}
 	return "simulated (scenario C)"
+}
+
+func clockState(b *build) string {
+	switch {
+	case b.clockNote != "":
+		return "simulated clock unavailable (" + b.clockNote + ")"
+	case b.instr.ClockWaits > 0:
+		return fmt.Sprintf("the tree under test waits on the clock at %d call sites: package time redirected to the simulated clock in %v, per-run clock speed and injected clock jumps", b.instr.ClockWaits, b.instr.TimeRewrite)
+	case len(b.instr.TimeRewrite) > 0:
+		return fmt.Sprintf("the tree under test only reads the clock (%v, redirected to the simulated clock) and never waits on it: no clock speed or jump is drawn", b.instr.TimeRewrite)
+	}
+	return "the code under test reads no clock"
 }
 
 func knobState(b *build) string {
